@@ -173,6 +173,21 @@ def run_race(ctx, spec, hist, e1, e2, tag):
     ctx.count('race_hook_fired', 'yes' if res['fired'] else 'no')
 
 
+def run_during(ctx, spec, hist, ev, fire_at, cases3, meta3, tag):
+    def report(key, what, thm):
+        ctx.violation(key, '%s (spec %r, history %r)' % (what, spec, hist), case={'spec': spec, 'history': hist, 'during_plan': ev, 'fire_at': fire_at},
+                      expected='statement of %s' % thm, actual=what, theorem=thm, kind='interleaving')
+    res = I.run_plan_during_event(spec, hist, ev, fire_at, report)
+    ctx.case([spec, hist, ev, fire_at], nontrivial=res['fired'], sample=None)
+    ctx.count('source', tag)
+    ctx.count('event_during_plan_fired', 'yes' if res['fired'] else 'no')
+    if res['fired'] and res['exception'] is None and not any(e[0] == 'P' for e in hist):
+        # (histories here bring hosts up one by one: bucket order is deterministic, no populate set order to read back)
+        evs = [coq_event(e) for e in hist]
+        cases3.append('check_plan3 %s %s [%s] %s %s' % (coq_base(spec), coq_env(spec), '; '.join(evs), coq_event(ev), zlist(res['plan'])))
+        meta3.append((spec, hist, ev, fire_at))
+
+
 def run_one(ctx, spec, hist, targets, cases, meta, tag):
     def report(key, what, thm, step=None, query=None):
         ctx.violation(key, '%s (spec %r, history %r, after event #%s, asked through %s)' % (what, spec, hist, step, query),
@@ -244,8 +259,28 @@ def run(ctx):
         a, b = rng.sample(range(n), 2)
         run_race(ctx, spec, hist, [rng.choice(RACE_EVENTS), a], [rng.choice(RACE_EVENTS), b], 'race-random')
         nrace += 1
+    # a plan being drained while another thread delivers an event (the remote-DC names must come from a copy of the dict)
+    cases3, meta3 = [], []
+    nduring = 0
+    p3 = {'kind': 'dca', 'dcs': [1, 1, 2, 2, 3, 3], 'local': 1, 'used': 1, 'contact': [], 'pred': {'hosts': [], 'dc': 0}}
+    for pop in ([0], [0, 2], [0, 2, 4], [2], [0, 1, 2, 3]):
+        hist0 = [['U', h] for h in pop]          # hosts come up one by one: deterministic bucket order, no populate set order
+        for ev in G.all_events(6, (1, 2, 3)):
+            for fire_at in (0, 1):
+                run_during(ctx, p3, hist0, ev, fire_at, cases3, meta3, 'plan-during-event-exhaustive')
+                nduring += 1
+    for _ in range(200 if ctx.tier == 'quick' else 3000):
+        spec = G.gen_spec(rng, kind='dca')
+        spec['local'] = rng.randint(1, 3)
+        n = len(spec['dcs'])
+        hist = [e for e in G.gen_history(rng, spec, rng.randint(0, 6), populate=False)]
+        ev = G.gen_history(rng, spec, 1, populate=False)[0]
+        run_during(ctx, spec, hist, ev, rng.randint(0, 2), cases3, meta3, 'plan-during-event-random')
+        nduring += 1
     ctx.exhaustive = True
-    ctx.rule = ('races: %d pairs of up/down/add/remove events for two different hosts, the second delivered entirely while the first waits for '
+    ctx.rule = ('plans during events: %d cases where one event is delivered by another thread at the k-th datacenter comparison of a plan being '
+                'drained (every event of the alphabet x 5 populations x k in {0,1} over 6 hosts x 3 DCs + random), compared with dca_plan3; ' % nduring +
+                'races: %d pairs of up/down/add/remove events for two different hosts, the second delivered entirely while the first waits for '
                 '_hosts_lock (all pairs over 4 hosts for a DC-aware and a round-robin policy + random ones), plans checked by the oracle; ' % nrace +'random: policy kind/parameters/initial DCs (incl. hosts without a DC, late local_dc inference), populate + up to 7 events over '
                 '<= 6 hosts x <= 3 DCs; exhaustive: for %d fixed (policy, populate) pairs over 4 hosts x 2 DCs EVERY sequence of %s events from '
                 '{up,down,add,remove,set-location dc1,set-location dc2} x 4 hosts (%d histories). After every event the state, distance() of '
@@ -258,6 +293,11 @@ def run(ctx):
             spec, hist, targets = meta[i]
             ctx.disagreement('model-vs-impl.%s' % spec['kind'], 'Model/LBP.v and cassandra/policies.py differ on spec %r history %r' % (spec, hist),
                              case={'spec': spec, 'history': hist, 'targets': targets}, actual=cases[i][:1500])
+        bad3 = ctx.coq_filter(['LBP'], '(fun b : bool => b)', cases3, shard=500)
+        for i in bad3[:10]:
+            spec, hist, ev, k = meta3[i]
+            ctx.disagreement('model-vs-impl.dca.plan-during-event', 'dca_plan3 and make_query_plan differ: spec %r history %r event %r during the plan' % (spec, hist, ev),
+                             case={'spec': spec, 'history': hist, 'during_plan': ev, 'fire_at': k}, actual=cases3[i][:1500])
     except RuntimeError as e:
         ctx.proof_broken.append(('correspondence:LBP', str(e)[-600:]))
     ctx.trust('Python harness lib/vf/lbp_impl.py: fake cluster (endpoints_resolved, metadata.get_host), real cassandra.pool.Host objects, '
@@ -279,6 +319,13 @@ def replay(ctx, rp):
         print('nothing to replay: %s; lock audit: %s' % (rp.get('theorem'), probs or 'ok'))
         return 1
     found = []
+    if case.get('during_plan'):
+        res = I.run_plan_during_event(case['spec'], case['history'], case['during_plan'], case.get('fire_at', 0), lambda key, what, thm: found.append((key, what, thm)))
+        print('history %r, %r delivered while the plan is drained: %r' % (case['history'], case['during_plan'], res))
+        for f in found:
+            print('  fails %s: %s' % (f[2], f[1]))
+        print(('VIOLATION property=C21 replay=%s' % ctx.replay_path) if found else 'not reproduced')
+        return 1 if found else 0
     if case.get('race'):
         res = I.run_race(case['spec'], case['history'], case['race'][0], case['race'][1], lambda key, what, thm: found.append((key, what, thm)))
         print('after %r then %r racing %r: state %r plans %r' % (case['history'], case['race'][0], case['race'][1], res['state'], res['plans']))
